@@ -170,8 +170,20 @@ func (r *Rep) Inconclusive(msg string) { r.emit(line{T: "inconclusive", Msg: msg
 func (r *Rep) Count(name string, n int64) { r.counters[name] += n }
 func (r *Rep) Inc(name string)            { r.counters[name]++ }
 func (r *Rep) Eval(n int64)               { r.evals += n }
-func (r *Rep) Distinct(h uint64)          { r.hashes[h] = struct{}{} }
-func (r *Rep) DistinctStr(s string)       { r.hashes[hashStr(s)] = struct{}{} }
+// distinctCap bounds the memory of one child: beyond it new identities are no longer
+// remembered, so the reported distinct count is a lower bound (counter distinct_cap_reached).
+const distinctCap = 6000000
+
+func (r *Rep) Distinct(h uint64) {
+	if len(r.hashes) >= distinctCap {
+		if _, ok := r.hashes[h]; !ok {
+			r.counters["distinct_cap_reached"]++
+			return
+		}
+	}
+	r.hashes[h] = struct{}{}
+}
+func (r *Rep) DistinctStr(s string) { r.Distinct(hashStr(s)) }
 func (r *Rep) Sample(v interface{}) {
 	if len(r.samples) < 4 {
 		r.samples = append(r.samples, v)
